@@ -24,14 +24,14 @@
 (*   RCell(g, s, X)  cell <<kind, arg, sr>> of the table being driven       *)
 (*                   (dumped from the real object, or the spec's own)      *)
 (*   SCell(g, s, X)  cell of the specification's canonical table           *)
-(*   LexAt(g, b, p)  <<term id, length>> of the token starting at 0-based  *)
+(*   LexAt(g, b, p, zd) <<term id, length>> of the token starting at 0-based*)
 (*                   offset p of byte sequence b, or <<-1, 0>>             *)
 (*   GR(g)           [nnt, nt, R (rules incl. root rule), tnames, ntnames, *)
 (*                    ruletext, obsT, obsC]                                *)
 (***************************************************************************)
 EXTENDS Naturals, Integers, Sequences, FiniteSets, TLC
 
-CONSTANTS RCell(_, _, _), SCell(_, _, _), LexAt(_, _, _), GR(_),
+CONSTANTS RCell(_, _, _), SCell(_, _, _), LexAt(_, _, _, _), GR(_),
           LexLines(_, _, _, _, _, _)   \* (g, bytes, offset, line, col, verbose): the lines the generated lexer prints for this
                                          \* match in verbose mode, as events (<<>> when not modelled / not verbose)
 
@@ -88,6 +88,10 @@ SpecCellNow == SCell(g, Top(sstack), T)
 SameAction(rc, sc) == rc[1] = sc[1] /\ (rc[1] = "reduce" => rc[2] = sc[2])
 CellsAgree == SameAction(Cell, SpecCellNow)
 
+\* offsets at which a term of length 0 has been shifted (a custom lexer may answer with length 0 - a virtual term; the
+\* harness' lexer gives that answer once per offset, and learns from the term functor that it was taken)
+ZeroDone == {nodes[i].off : i \in {j \in 1..Len(nodes) : nodes[j].k = 0 /\ nodes[j].len = 0}}
+
 (************************* get_current_term *******************************)
 \* use_lexer<L>: the custom lexer is asked exactly once per needed term, at the offset after whitespace skipping,
 \* with the source point of that offset, and never at the end of the input (observable call of L::match)
@@ -113,7 +117,7 @@ GetTerm ==
                                                                        \* then not recognised again on the next iteration
                 /\ ev' = <<"rec", sp[1], sp[2], TName(g, EofOf(g))>>
                 /\ UNCHANGED <<status, msgs>>
-           ELSE LET lx == LexAt(g, inp, p) IN
+           ELSE LET lx == LexAt(g, inp, p, ZeroDone) IN
                 IF lx[1] = -1
                 THEN /\ cur' = -1 /\ endIt' = p /\ ph' = "top" /\ status' = "rej"
                      /\ msgs' = Append(msgs, <<"unexp", sp[1], sp[2], inp[p + 1]>>)
@@ -230,6 +234,8 @@ Goto ==
 \* no right side -> a default value (no observable call); a single nonterminal -> that value itself, moved.
 IsDflt(r) == \E k \in DOMAIN GR(g).dflt : GR(g).dflt[k] = r
 IsCtx(r) == \E k \in DOMAIN GR(g).ctxr : GR(g).ctxr[k] = r
+\* value-less nonterminals (nterm<no_type>): their rules' functors are called like any other, the result carries no value
+NoVal(n) == \E k \in DOMAIN GR(g).noval : GR(g).noval[k] = n
 Call ==                  \* the rule's functor: children's values in right-side order, exactly once
   /\ status = "run" /\ ph = "call"
   /\ LET r == red n == Len(RuleOf(r).r)
@@ -242,7 +248,7 @@ Call ==                  \* the rule's functor: children's values in right-side 
         ELSE IF IsDflt(r) /\ n = 1 /\ RuleOf(r).r[1] < TB
         THEN nodes' = nodes /\ vals' = vals /\ ev' = <<"tau">>
         ELSE /\ nodes' = Append(nodes, [k |-> IF IsDflt(r) THEN 2 ELSE 1, sym |-> IF IsDflt(r) THEN -1 ELSE r, ch |-> args, off |-> -1, len |-> -1, line |-> -1, col |-> -1])
-             /\ vals' = Append(rest, id)
+             /\ vals' = Append(rest, IF NoVal(RuleOf(r).l) THEN -2 ELSE id)
              /\ ev' = IF IsDflt(r) THEN <<"dcall", id, args, [i \in 1..n |-> lc(args[i])[1]], [i \in 1..n |-> lc(args[i])[2]], 0>>
                       \* C13: a functor attached with >>= receives the caller's very object (identity 1), const iff the caller's is
                       ELSE IF IsCtx(r) THEN <<"ccall", r, id, args, [i \in 1..n |-> lc(args[i])[1]], [i \in 1..n |-> lc(args[i])[2]], 1, IF opt.cat = 2 THEN 1 ELSE 0, 0>>
